@@ -142,6 +142,17 @@ CHECKS = {
              "repeated runs of the rebuilt flex under perturbed allocators and environments, -o against -t, valgrind's definedness "
              "checker on a sample, and the stage1/stage2 bootstrap comparison - these runs are exploration, not proof.",
         design="DESIGN.md section 6 C18", technique="machine-checked non-interference proof (Rocq) for the transition store + differential runs under perturbed allocators"),
+    "C19": dict(
+        text="Rocq theorems over tables regenerated from the source on every run (harness/gen_options.py -> coq/OptionFacts.v): "
+             "C19_every_tested_symbol_can_be_defined (every m4 symbol a skeleton tests with m4_ifdef is one the generator or a skeleton "
+             "defines: no option is cut off from the skeleton by a misspelt symbol) and C19_cli_and_option_spelling_agree (for the 63 options "
+             "that are one assignment, --name and %option name assign the same value to the same control field); finite facts proved "
+             "by vm_compute, the tables' sizes are part of the statement. Observable effects are probed with small scanners: main, extra-type, "
+             "noyypanic, lex-compat, prefix (nm), 20 noyy* options in both spellings with a control, yylmax, bufsize, "
+             "yydecl/yyterminate/pre-action/post-action/user-init, noyyread, noyyalloc/noyyrealloc/noyyfree, header-file (program built from "
+             "the header alone), bison-bridge/locations, contradictory combinations; every option with both spellings must generate "
+             "byte-identical scanners.",
+        design="DESIGN.md section 6 C19", technique="translator-generated tables + machine-checked finite facts (Rocq vm_compute) + effect probes (compile, nm, run)"),
     "C20": dict(
         text="Rocq theorems (coq/M4Quote.v): C20_user_code_verbatim_actions_and_blocks and C20_user_code_verbatim_top_and_section3 - for EVERY "
              "byte string u, the text flex hands to m4 for a region of user code (the m4 quotes around flex's rewriting of [[ and ]], both "
